@@ -805,6 +805,17 @@ class H2Stream:
         return STREAM_OPEN[self.state_machine.state]
 
     @property
+    def reserved(self):
+        """
+        Whether the stream has been promised but not yet started: it does not
+        count against the number of concurrent streams until its response
+        headers are sent or received (RFC 7540 Section 5.1.2).
+        """
+        return self.state_machine.state in (
+            StreamState.RESERVED_LOCAL, StreamState.RESERVED_REMOTE
+        )
+
+    @property
     def closed(self):
         """
         Whether the stream is closed.
